@@ -96,3 +96,24 @@ package deps
 //@   ensures imp(!isNil(err), !typeIs(err, "*res.Error"))
 //@   ensures raw: imp(typeIs(v, "*store.valueObject") && ref(ptrOf(v, "*store.valueObject").Data) != 0, len(ptrOf(v, "*store.valueObject").Data) >= 1 && ref(ptrOf(v, "*store.valueObject").Data) >= old(nextRef()))
 //@   ensures unchanged("bytes") || true
+
+//@ # sync.WaitGroup: ghost counter of live workers (no fairness, no progress claims)
+//@ ghostvar wgcount int
+//@ trusted func (wg *sync.WaitGroup) Add(delta int)
+//@   modifies ghost.wgcount
+//@   ensures wgcount == old(wgcount) + delta
+//@ trusted func (wg *sync.WaitGroup) Done()
+//@   modifies ghost.wgcount
+//@   ensures wgcount == old(wgcount) - 1
+//@ trusted func (wg *sync.WaitGroup) Wait()
+//@   modifies ghost.wgcount
+//@   ensures wgcount == 0
+//@ trusted func (c res.Conn) Close()
+//@   modifies ghost.connClosed, ghost.connCloses
+//@   ensures connClosed && connCloses == old(connCloses) + 1
+
+//@ # closing a channel that a sender may still use panics in the sender: the connection must be closed first
+//@ ghostvar connClosed bool
+//@ ghostvar connCloses int
+//@ func builtin.close(ch ref)
+//@   requires quiet: connClosed
